@@ -50,6 +50,19 @@ func guardsSystem() []*guardSpec {
 	}
 }
 
+func guardsCache() []*guardSpec {
+	return []*guardSpec{
+		{Owner: "sys.System", Lock: "sys.System.Mutex", Fields: fields("storage")},
+		{Owner: "sys.CachedLocations", Lock: "sys.CachedLocations.Mutex", Fields: fields("locs")},
+		{Owner: "sys.CachedLocation", Lock: "sys.CachedLocation.Mutex", Fields: fields("Location", "Expires", "Pending")},
+	}
+}
+
+func ruleLocksetCache(w *World, r *Report) {
+	runLockset(w, r, "LOCKSET-CACHE", guardsCache(),
+		"guarded-by for the location cache: CachedLocations.locs under the table mutex, CachedLocation.{Location,Expires,Pending} under the entry mutex, System.storage under the System mutex", 10)
+}
+
 func guardsCron() []*guardSpec {
 	return []*guardSpec{
 		{Owner: "cron.Cron", Lock: "cron.Cron.Mutex", Fields: fields("Timeline", "control", "timerTarget")},
